@@ -175,7 +175,7 @@ def run_diff(case, viol, obs):
         return None, False, None
     obs["c11.pairs_compared"] += 1
     if sn != se:
-        if edge_noise and cyc and sn[0] == "solved" and se[0] == "solved":
+        if edge_noise and cyc and sn[0] in ("solved", "unsolved") and se[0] in ("solved", "unsolved"):
             # classify by mechanism: the walk models' per-edge multiplicity caps (largest reachable weight) are computed from raw attribute
             # values, here also from the values carried by the (ignored) original edges of the node-weighted graph
             def caps_of(res, a, b):
